@@ -2,9 +2,11 @@ package dagsync
 
 import (
 	"context"
+	"net/http"
 	"time"
 
 	"github.com/ipfs/go-cid"
+	"github.com/ipni/go-libipni/announce"
 	"github.com/libp2p/go-libp2p/core/peer"
 )
 
@@ -163,4 +165,67 @@ func VerifC08_IdleCleanerKeepsUsedHandler() {
 	v.s.handlersMutex.Unlock()
 	verif_Assert(!still, "an idle handler is removed after the TTL")
 	verif_Assert(v.s.Close() == nil, "Close succeeds")
+}
+
+// C08, whole stack, long-running sync: a sync that has been running for longer
+// than the idle-handler TTL is not "idle". When the cleaner ticks during it and
+// a newer announcement arrives, the publisher must still have one handler and
+// one sync at a time. Real sync client and traversal (the second handler, if
+// one were created, gets its own working sync client); the network yields at
+// every block request and counts requests in flight for the publisher.
+func VerifC08_LongSyncVsIdleCleaner() {
+	if !verif_Symbolic() {
+		verif_Reach("quiescent")
+		return // timer ticks are model-only
+	}
+	const n = 3
+	verif_SetClock(0)
+	w := newFullStack(n, 0, -1, 16)
+	defer w.restore()
+	v := w.v
+	// the publisher is slow: every block request waits at a gate the harness opens
+	// later (a sync in progress for as long as the harness wants)
+	inFlight, maxInFlight := 0, 0
+	gate := make(chan struct{})
+	w.respond = func(i, k int) (*http.Response, error) {
+		inFlight++
+		if inFlight > maxInFlight {
+			maxInFlight = inFlight
+		}
+		<-gate
+		inFlight--
+		return nil, nil
+	}
+	rcv, rerr := announce.NewReceiver(nil, "")
+	verif_Assume(rerr == nil)
+	v.s.receiver = rcv
+	v.s.watchDone = make(chan struct{})
+	v.s.idleHandlerTTL = 10 * time.Second
+	go v.s.watch()
+	go v.s.distributeEvents()
+	go v.s.idleHandlerCleaner()
+	verif_Quiesce()
+	evch, _ := v.s.OnSyncFinished()
+	// the older head is announced: its sync starts (handler used at t=0)
+	verif_Assume(v.s.Announce(context.Background(), w.chain[1], w.pinfo) == nil)
+	verif_Quiesce() // the sync is waiting for its first block
+	verif_Assert(inFlight == 1, "the announced sync is in progress")
+	// much later the sync is still running; the cleaner ticks; the newest head is announced
+	verif_SetClock(20)
+	verif_TickTimers()
+	verif_Quiesce()
+	verif_Assume(v.s.Announce(context.Background(), w.chain[0], w.pinfo) == nil)
+	verif_Quiesce()
+	close(gate) // the publisher answers from now on
+	verif_Quiesce()
+	verif_Reach("quiescent")
+	verif_Assert(maxInFlight <= 1, "at most one sync at a time per publisher, also when a sync outlives the idle-handler TTL")
+	verif_Assert(v.latest() == w.chain[0], "latest-synced equals the last announced head")
+	verif_Assert(v.s.Close() == nil, "Close succeeds")
+	blocks := 0
+	for e := range evch {
+		verif_Assert(e.Err == nil, "no failure in a fault-free run")
+		blocks += e.Count
+	}
+	verif_Assert(blocks == n && len(v.log) == n, "every advertisement was reported exactly once")
 }
